@@ -54,7 +54,10 @@ RULE = ("expr: exhaustive cross 35 dunders x operand kinds x length pairs x call
         "and attribute access raise; a Boom scalar = every position raises) x every dunder of the pool x (scalar operand on the side the dunder "
         "fixes | iterable operand raw / in a Stream | endless self | endless other | unary | map / abs / attribute / call) and random nested "
         "trees of depth <= 4 (thorough 5) with append / Stream(a, b); each read three ways: next() in try/except, a for loop restarted after "
-        "each exception, a random script of next() / take(k) in try/except; bcastE: the math/dB/MIDI functions on scalar / list / tuple / deque / "
+        "each exception, a random script of next() / take(k) / peek(k) in try/except (observed through the first read that meets the end: "
+        "the model's `untilEnd`; compared with the model's script and with `scriptOuts` of the spec's outcomes); opget: list(OpMethod.get(keys, "
+        "without)) for every documented key (symbol, name, dunder, operator function, 1/2/'1'/'2', 'r', 'all'), unknown keys, random "
+        "key / without lists in every accepted spelling (list, tuple, generator, bare, white-space separated string); bcastE: the math/dB/MIDI functions on scalar / list / tuple / deque / "
         "generator / map / filter / Stream / thub inputs, by position and by keyword, with elements in the middle on which the function raises "
         "(domain errors, None, str, negative factorial), invalid logarithm bases by position / keyword; meta: classes built with a user's "
         "subclass of AbstractOperatorOverloaderMeta (subsets of the three builders x __operators__ / __without__ queries x names bound in the body); "
@@ -72,7 +75,11 @@ TRUSTED = [
     "(every next() of an operator expression asks each leaf at most once)",
     "harness/props/c01_exc.py: the oracle table `bad` handed to the Lean model (entries exprE / bcastE) = the applications, among those the "
     "model itself asks about (`queried`), on which python's operator.* / the undecorated library function raises on the real elements; "
-    "settled by rounds and re-checked for consistency in every comparison; the three readers (next loop, restarted for loop, next/take script)",
+    "settled by rounds and re-checked for consistency in every comparison (that a table agreeing with python on the logged queries gives "
+    "python's run is PROVED: oracle_settled / oracle_settled_take / oracle_settled_script; that nothing logged is superfluous: "
+    "oracle_query_needed); the three readers (next loop, restarted for loop, next/take/peek script)",
+    "CPython fact the model of `peek` encodes (checked differentially): itertools.tee keeps the items one copy has read for the other "
+    "copy and passes an exception of the underlying iterator on WITHOUT keeping it",
     "harness/props/c01_exc.py stream_meth_kinds: ast recogniser that tells from lazy_stream.py whether Stream.__getattr__ / __call__ build "
     "their result on a generator expression or on a map object (parameter `g` of the model's `meth` node; unknown shape = broken obligation)",
     "independent oracle (c01_exc.scalar_function_checks, 538 calls) for the element functions lazy_math defines itself (log / ln / log10 / "
@@ -688,6 +695,8 @@ def _impl_once(c):
             return xc.impl_bcast(c)
         if c["entry"] == "meta":
             return xc.impl_meta(c)
+        if c["entry"] == "opget":
+            return xc.impl_opget(c)
         raise ValueError(c["entry"])
     except _Timeout:
         return {"err": "TIMEOUT"}
@@ -713,6 +722,8 @@ def request(c):
         return xc.request(c)
     if c["entry"] == "meta":
         return dict((k, c[k]) for k in ("entry", "ops", "without", "have", "ns"))
+    if c["entry"] == "opget":
+        return dict((k, c[k]) for k in ("entry", "keys", "without"))
     return {"entry": c["entry"]}
 
 
@@ -865,6 +876,8 @@ def compare(c, io, drv):
         return xc.compare_bcast(c, io, drv)
     if c["entry"] == "meta":
         return xc.compare_meta(c, io, drv)
+    if c["entry"] == "opget":
+        return xc.compare_opget(c, io, drv)
     return [("model", "unknown entry")]
 
 
@@ -1571,9 +1584,18 @@ def tally(eng, c, io):
         xc.tally(eng, c, io)
     elif c["entry"] == "meta":
         xc.tally_meta(eng, c, io)
+    elif c["entry"] == "opget":
+        xc.tally_opget(eng, c, io)
 
 
 def shrink(c):
+    if c["entry"] == "opget":
+        for k in ("keys", "without"):
+            for i in range(len(c[k])):
+                yield dict(c, **{k: c[k][:i] + c[k][i + 1:]})
+        if c.get("form", "list") != "list" or c.get("wform", "list") != "list":
+            yield dict(c, form="list", wform="list")
+        return
     if c["entry"] == "meta":
         for k in ("ops", "without", "ns", "have"):
             if c[k]:
@@ -1662,7 +1684,7 @@ def _shrink_node(nd):
 
 
 def neighbours(c):
-    if c["entry"] in ("exprE", "bcastE", "meta"):
+    if c["entry"] in ("exprE", "bcastE", "meta", "opget"):
         return
     if c["entry"] == "bcast":
         for x in neighbours_bcast(c):
@@ -1704,6 +1726,8 @@ def classify(c, io, drv):
         return "optable"
     if c["entry"] == "meta":
         return "metaclass-user"
+    if c["entry"] == "opget":
+        return "opmethod-get:" + ("raises" if "err" in io else "entries")
     if c["entry"] == "bcast":
         return classify_bcast(c, io, drv)
     if c["entry"] in ("exprE", "bcastE"):
